@@ -158,55 +158,52 @@ def build_runners(P):
 
 
 def run_sharded(cmd, lines, tag, timeout=900):
-    """Feed lines (strings) to NPROC copies of cmd; return list of output lines (same order)."""
+    """Feed lines (strings) to NPROC copies of cmd; return list of output lines (same order).
+    A runner that dies (abort, watchdog) yields fewer lines than it was fed: the first missing line is the script
+    that killed it (marked CRASH); the rest of that shard is re-run in a fresh process, all shards in parallel,
+    for a few rounds."""
     os.makedirs(WORK, exist_ok=True)
     n = len(lines)
     if n == 0:
         return []
     k = min(NPROC, max(1, n // 20))
     shards = [lines[i::k] for i in range(k)]
-    procs = []
-    for i, sh_lines in enumerate(shards):
-        fin = os.path.join(WORK, "%s_in_%d.txt" % (tag, i))
-        fout = os.path.join(WORK, "%s_out_%d.txt" % (tag, i))
+    got = [[] for _ in range(k)]
+
+    def launch(i, rest, rnd):
+        fin = os.path.join(WORK, "%s_in_%d_%d.txt" % (tag, i, rnd))
+        fout = os.path.join(WORK, "%s_out_%d_%d.txt" % (tag, i, rnd))
         with open(fin, "w") as f:
-            f.write("\n".join(sh_lines) + "\n")
-        procs.append((subprocess.Popen("exec " + cmd, shell=True, stdin=open(fin), stdout=open(fout, "w"),
-                                       stderr=subprocess.DEVNULL, env=ENV, cwd=VERIF), fout, len(sh_lines)))
-    outs = []
-    for p, fout, cnt in procs:
-        try:
-            p.wait(timeout=timeout)
-        except subprocess.TimeoutExpired:
-            p.kill()
-            p.wait()
-        got = open(fout).read().split("\n")
-        if got and got[-1] == "":
-            got.pop()
-        # a crashed runner yields fewer lines: the first missing line is the script that killed it;
-        # mark it and re-run the rest of the shard in fresh processes
-        rounds = 0
-        while len(got) < cnt and rounds < 50:
-            rounds += 1
-            got.append("CRASH")
-            rest = shards[len(outs)][len(got):]
-            if not rest:
-                break
+            f.write("\n".join(rest) + "\n")
+        p = subprocess.Popen("exec " + cmd, shell=True, stdin=open(fin), stdout=open(fout, "w"),
+                             stderr=subprocess.DEVNULL, env=ENV, cwd=VERIF)
+        return p, fout
+
+    for rnd in range(5):
+        todo = [i for i in range(k) if len(got[i]) < len(shards[i])]
+        if not todo:
+            break
+        procs = [(i,) + launch(i, shards[i][len(got[i]):], rnd) for i in todo]
+        t_end = time.time() + (timeout if rnd == 0 else min(timeout, 180))
+        for i, p, fout in procs:
             try:
-                r = subprocess.run("exec " + cmd, shell=True, input="\n".join(rest) + "\n", stdout=subprocess.PIPE,
-                                   stderr=subprocess.DEVNULL, text=True, env=ENV, cwd=VERIF, timeout=timeout)
-                more = r.stdout.split("\n")
+                p.wait(timeout=max(1, t_end - time.time()))
             except subprocess.TimeoutExpired:
-                more = []
-            if more and more[-1] == "":
-                more.pop()
-            got += more
-        got += ["CRASH"] * (cnt - len(got))
-        outs.append(got[:cnt])
+                p.kill()
+                p.wait()
+            out = open(fout).read().split("\n")
+            if out and out[-1] == "":
+                out.pop()
+            need = len(shards[i]) - len(got[i])
+            got[i] += out[:need]
+            if len(got[i]) < len(shards[i]):
+                got[i].append("CRASH")      # the script the runner died on (or was killed at)
+    for i in range(k):
+        got[i] += ["CRASH"] * (len(shards[i]) - len(got[i]))
     res = [None] * n
     for i in range(k):
-        for j, o in enumerate(outs[i]):
-            res[i + j * k] = o
+        for j2, o in enumerate(got[i]):
+            res[i + j2 * k] = o
     return res
 
 
